@@ -790,12 +790,37 @@ func (ig Integration) Filter() glf.Filter {
 		fields []string
 		addrs  []string
 	)
+	var nfilters int
+	for _, inp := range ig.Event.Selected() {
+		if len(inp.Filter.Arg) > 0 || len(inp.Filter.Ref.Integration) > 0 {
+			nfilters++
+		}
+	}
+	for i := range ig.Block {
+		if len(ig.Block[i].Filter.Arg) > 0 || len(ig.Block[i].Filter.Ref.Integration) > 0 {
+			nfilters++
+		}
+	}
 	for i := range ig.Block {
 		fields = append(fields, ig.Block[i].Name)
 
 		if ig.Block[i].Name == "log_addr" && len(ig.Block[i].Filter.Arg) > 0 {
+			// Asking the node for these addresses only is an optimization.
+			// It must not exclude logs that the filters would accept:
+			// the filter has to select exactly these addresses and
+			// no other filter may accept a log on its own.
+			op := ig.Block[i].Filter.Op
+			pushdown := (op == "contains" || op == "eq") && (ig.filterAGG == "and" || nfilters == 1)
+			var args []string
 			for _, arg := range ig.Block[i].Filter.Arg {
-				addrs = append(addrs, eth.EncodeHex(eth.DecodeHex(arg)))
+				a := eth.DecodeHex(arg)
+				if len(a) != 20 {
+					pushdown = false
+				}
+				args = append(args, eth.EncodeHex(a))
+			}
+			if pushdown {
+				addrs = append(addrs, args...)
 			}
 		}
 	}
